@@ -6,7 +6,7 @@ import sys
 
 HERE = os.path.dirname(os.path.abspath(__file__))
 VERIF = os.path.dirname(HERE)
-REPLAYS = os.path.join(VERIF, 'evidence', 'replays')
+REPLAYS = os.path.join(os.environ.get('VERIF_EVIDENCE_DIR') or os.path.join(VERIF, 'evidence'), 'replays')
 
 
 def replay_violation(pid, res, v, mod, cfg):
